@@ -67,8 +67,7 @@ pub fn abs_req(req: &PresentationRequest) -> Value {
 pub struct AccTable(pub Vec<Vec<u8>>);
 impl AccTable {
     pub fn id_of_str(&mut self, s: &str) -> Option<u64> {
-        let acc = anoncreds::cl::Accumulator::from_string(s).ok()?;
-        let b = acc.to_bytes().ok()?;
+        let b = crate::fam_c09::point_bytes(s)?;
         if let Some(i) = self.0.iter().position(|x| *x == b) {
             return Some(i as u64);
         }
